@@ -905,6 +905,7 @@ func Merge[T any](in ...Stream[T]) Stream[T] {
 	for i := 0; i < len(in); i++ {
 		i := i
 		go func() {
+			defer in[i].Close()
 			defer func() {
 				if int(atomic.AddUint32(&nDone, 1)) == len(in) &&
 					atomic.LoadUint32(&closeOnce) == 0 {
